@@ -43,8 +43,9 @@ type Event struct {
 }
 
 type cell struct {
-	L  []string
-	NN bool
+	L   []string
+	NN  bool
+	Src string
 }
 
 type deferred struct {
@@ -184,6 +185,7 @@ type Engine struct {
 	heapSorts   map[string]string
 	pathCounter int
 	tagTypes    []types.Type
+	globLen     map[*ssa.Global]int64
 	entryLines  int
 	entryState  *State
 }
@@ -271,7 +273,7 @@ func (e *Engine) assumeTypeInv(s *State, t types.Type, v *Val) {
 				s.assume(app(">=", x, "0"))
 			}
 		case "Str":
-			s.assume(app(">=", app("slen", x), "0"))
+			s.assume(and(app(">=", app("slen", x), "0"), app("<=", app("slen", x), "4611686018427387904")))
 		}
 	}
 	// slice invariants
